@@ -1,0 +1,9 @@
+//go:build !verif
+
+// Package verifhook carries the verification hooks of /verif; without the build tag
+// `verif` they are empty stubs.
+package verifhook
+
+func DurableWritten(name string) {}
+
+func Trace(event string, addr []byte, n int) {}
